@@ -161,6 +161,7 @@ PlanT2 == { DirectPlan(Engines2, "byalg", StyleCover, {1, 2, 3}, {T0, T1, T2}) }
 PlanT3 == { DirectPlan(Engines3, "byalg", StyleQuick, {2}, {T0, T2}) }
 PlanH1 == { HistPlan(EnginesH1, "all", {3}, {T0, T2}) }
 PlanH2 == { HistPlan(EnginesH2, "byalg", {2}, {T2}) }
+PlanCov == { DirectPlan({ e \in Engines3Q : e.edges = <<>> /\ e.algs[1].pkg = e.algs[2].pkg }, "byalg", StyleOne, {1}, {T2}) }
 PlanTiny == { DirectPlan({ MkEngine("pkgs", <<"task">>, << <<1>> >>, {}) }, "all", StyleOne, {3}, {T2}) }
 
 CasesFor(p, e) ==
